@@ -665,8 +665,11 @@ def _run(pid, P, tier, seed, scratch, t0):
     ev = dict(
         property_id=pid, tier=tier, seed=seed, level=level,
         coverage=dict(
-            obligations=n_obl - known_obl,
-            discharged=len(discharged_list),
+            # bounded stand-ins are listed separately below and are NOT counted among the proof obligations
+            obligations=n_obl - known_obl - len([o for o in obligations if o.get('bounded')]),
+            discharged=len([o for o in discharged_list if not o.get('bounded')]),
+            bounded_checks=[dict(id=o['id'], claim=o['text'], function=o['where'], backend=o['backend'], requests=o.get('tried'),
+                                 passed=(o in discharged_list)) for o in obligations if o.get('bounded')],
             undischarged_known_findings=known_obl,
             undischarged_violations=failed_obl,
             checker_cmd=runs[0]['cmd'] + (' ; and the same with -C debug-assertions=off' if len(runs) > 1 else '') +
@@ -699,8 +702,9 @@ def _run(pid, P, tier, seed, scratch, t0):
         return 1
     if inconclusive:
         return 2
-    print('OK property=%s obligations=%d discharged=%d known_findings=%d wall=%.1fs' %
-          (pid, n_obl - known_obl, len(discharged_list), known_obl, wall))
+    nb = len([o for o in obligations if o.get('bounded')])
+    print('OK property=%s obligations=%d discharged=%d bounded_standins=%d known_findings=%d wall=%.1fs' %
+          (pid, n_obl - known_obl - nb, len([o for o in discharged_list if not o.get('bounded')]), nb, known_obl, wall))
     return 0
 
 
